@@ -53,7 +53,15 @@ PROP = dict(
              "ArgsLoader(os.Args) that app.NewApp installs is a source with content (loader #0, marker m0): 1-4 arguments on leaf paths "
              "that loaders of the line supply too, each with its own value, sometimes a small random tree; it is the first loader added, so "
              "the same oracles demand that every raw / args loader added by an option wins over it on a shared key, that it wins over "
-             "files, and that a set-type option removes it",
+             "files, and that a set-type option removes it; "
+             "seventh round (tag env; n/20 further lines from fresh forks after all lines above — 100 in quick — and 8 corpus lines): the line runs under an ENVIRONMENT (scenario prefix `EV n name value…`: "
+             "the harness sets the variables with os.Setenv for the duration of the scenario and puts the environment back afterwards): an App line of the generators above with the default Configure "
+             "(no bare Configure, no SetConfigure; one in four a history, one in three with a process command line) whose key names are partly renamed to ordinary words (path, home, user, lang, java.home, shell, "
+             "term, pwd, tmpdir, …, the hyphenated min-version / data-dir), and 1-6 variables named after keys and sections of the line's own documents by the usual convention (upper case, `.` and `-` "
+             "become `_`): names of its own (A_B, K, M2, JAVA_HOME_MIN_VERSION: set to a value of their own, 91%) and ordinary ones (PATH, HOME, USER, LANG, JAVA_HOME, …: value `*` = as the process has "
+             "it, `x` when it has none; 80%), on leaves (89%) and on sections (62%), sometimes one that collides with nothing; every path is read as before.  Oracle config-env-leak: the same line is run a second "
+             "time with these variables ABSENT from the environment and must read the same thing at every path after every Initialize (the effective configuration is the merge of the loader outputs; the "
+             "environment is no loader); all other oracles are evaluated on the run WITH the variables",
         trusted_base=COMMON_TB + ["spf13/viper v1.19.0 merge, key lower-casing, Get and AllSettings as modelled in Ioc.Config (validated by the correspondence)",
                                   "yaml.v3 parsing of the generated documents; go-kid/properties + strconv2 for ArgsLoader values",
                                   "Go's sort.Slice is an insertion sort (stable) below 13 elements, as modelled by sortByKey; on 13 and more elements it returns an "
@@ -68,6 +76,8 @@ PROP = dict(
                      "may have any size; the harness process itself is started without --app.config arguments (checked), so the default ArgsLoader is empty "
                      "unless the scenario line gives a command line (`OA`), which the harness installs in os.Args before app.NewApp() and removes after the "
                      "last Initialize of the line (the config sub-harness runs its cases one after the other)",
+                     "`EV` lines: the model has no environment (its driver checks the form of the prefix and drops it): what the loaders wrote is the whole configuration; the config sub-harness runs its "
+                     "cases one after the other, the variables exist only between the start of the scenario and its last read (twice: set, then removed), then the environment is as it was",
                      "null is a value: a later null hides an earlier value (viper.Get returns nil), counted as 'last wins'",
                      "histories: the binder has no reset, so a key that only a source removed by a later SetLoaders / SetConfigLoader supplied stays "
                      "visible after the next Initialize (modelled; the property speaks about configured sources, the oracle demands nothing "
